@@ -144,6 +144,32 @@ def sim(rec, fn, name, obj, w, size, limit):
     return o
 
 
+def _fa_round(rec, kind, X, R, words, L, size, da, na):
+    if kind == 'dfa':
+        for w in words:
+            o = sim(rec, da.dfa_simulate_word, 'dfa_simulate_word', X, w, size, 0)
+            if o is None:
+                break
+            if w in L:
+                why = check_fa_run(R, w, o.value)
+                if why:
+                    rec.violation('dfa_simulate_word:not_a_run', 'the DFA trace for an accepted word is not a genuine accepting run: ' + why, word=w, rows=o.value[:6], automaton=R)
+                    break
+    else:
+        for w in words:
+            o = sim(rec, na.nfa_simulate_word, 'nfa_simulate_word', X, w, size, 0)
+            if o is None:
+                break
+            if w in L:
+                why = 'returned None' if o.value is None else check_fa_run(R, w, o.value)
+                if why:
+                    rec.violation('nfa_simulate_word:not_a_run', 'the NFA trace for an accepted word is not a genuine accepting run: ' + why, word=w, rows=(o.value or [])[:8], automaton=R)
+                    break
+            elif o.value is not None:
+                rec.violation('nfa_simulate_word:run_for_rejected_word', 'nfa_simulate_word returned a run for a rejected word', word=w, rows=o.value[:8], automaton=R)
+                break
+
+
 def check_case(rec, case):
     import gambatools.dfa_algorithms as da
     import gambatools.nfa_algorithms as na
@@ -158,31 +184,18 @@ def check_case(rec, case):
         L = fa.language_upto(R, n)
         rec.note_case(case, case['cls'], 0 < len(L) < len(words))
         size = len(R[0]) + len(R[2])
-        if kind == 'dfa':
-            D = adapt.build_dfa(R, scramble=case.get('scr'))
-            for w in words:
-                o = sim(rec, da.dfa_simulate_word, 'dfa_simulate_word', D, w, size, 0)
-                if o is None:
+        # the same object asked again after an in-place change (round 1): the run must be a run of the automaton as it is NOW
+        X = adapt.build_dfa(R, scramble=case.get('scr')) if kind == 'dfa' else adapt.build_nfa(R, case.get('eps', ''), case.get('container', 'defaultdict_set'), scramble=case.get('scr'))
+        for round_ in (0, 1):
+            if round_ == 1:
+                if len(R[0]) < 2 or not common.mutate_in_place(X, repr(R)):
                     break
-                if w in L:
-                    why = check_fa_run(R, w, o.value)
-                    if why:
-                        rec.violation('dfa_simulate_word:not_a_run', 'the DFA trace for an accepted word is not a genuine accepting run: ' + why, word=w, rows=o.value[:6])
-                        break
-        else:
-            N = adapt.build_nfa(R, case.get('eps', ''), case.get('container', 'defaultdict_set'), scramble=case.get('scr'))
-            for w in words:
-                o = sim(rec, na.nfa_simulate_word, 'nfa_simulate_word', N, w, size, 0)
-                if o is None:
-                    break
-                if w in L:
-                    why = 'returned None' if o.value is None else check_fa_run(R, w, o.value)
-                    if why:
-                        rec.violation('nfa_simulate_word:not_a_run', 'the NFA trace for an accepted word is not a genuine accepting run: ' + why, word=w, rows=(o.value or [])[:8])
-                        break
-                elif o.value is not None:
-                    rec.violation('nfa_simulate_word:run_for_rejected_word', 'nfa_simulate_word returned a run for a rejected word', word=w, rows=o.value[:8])
-                    break
+                R = adapt.dfa_ref(X) if kind == 'dfa' else adapt.nfa_ref(X)
+                words = list(fa.words_upto(R[1], min(n, 4)))
+                L = fa.language_upto(R, min(n, 4))
+                size = len(R[0]) + len(R[2])
+                rec.counters['requery_after_in_place_change'] += 1
+            _fa_round(rec, kind, X, R, words, L, size, da, na)
     elif kind == 'pda':
         words = list(fa.words_upto(R[1], n))
         exact = {w for w in words if pd.accepts(R, w)}
